@@ -269,6 +269,14 @@ func (sw *SnapshotWriter) saveHeader() error {
 	if _, err := sw.file.WriteAt(data, 8); err != nil {
 		return err
 	}
+	// crc32 of the marshaled header, checked by validateHeader on read
+	if uint64(len(data)) <= HeaderSize-8-4 {
+		h := newCRC32Hash()
+		fileutil.MustWrite(h, data)
+		if _, err := sw.file.WriteAt(h.Sum(nil), int64(8+len(data))); err != nil {
+			return err
+		}
+	}
 	return nil
 }
 
